@@ -20,11 +20,19 @@ import (
 // Pattern grammar of DESIGN.md appendix C.
 var (
 	c11Chars   = []string{"a", "b", "0", "1", "2", "-", "]", "{", "}", ",", " ", "x", ":", "i"}
-	c11Escs    = []string{`\.`, `\-`, `\]`, `\[`, `\^`, `\{`, `\d`, `\w`, `\s`, `\D`, `\b`, `\/`, `\:`, `\@`, `\\`, `\$`, `\(`, `\|`, `\+`}
+	c11Escs    = []string{`\.`, `\-`, `\]`, `\[`, `\^`, `\{`, `\d`, `\w`, `\s`, `\D`, `\b`, `\/`, `\:`, `\@`, `\\`, `\$`, `\(`, `\|`, `\+`,
+		`\B`, `\A`, `\z`, `\,`, `\0`, `\01`, `\Q\E`, `\Qab\E`, `\Q.\E`, `\x41`, `\}`, `\=`}
 	c11Repeats = []string{"", "", "", "?", "*", "+", "??", "*?", "{0}", "{1}", "{0,1}", "{1,}", "{0,}", "{2}", "{2,3}", "{1,1}", "{0,0}",
 		// counts with a leading zero: Go's regexp reads these braces as literal text
-		"{01}", "{1,01}", "{02,2}", "{00}", "{0,00}", "{01,}", "{2,2}", "{3,3}"}
-	c11Items   = []string{"a", "b", "0", "9", "-", "a-z", "0-9", "a-a", "+--", "[:digit:]", "[:alpha:]", `\d`, `\w`, `\-`, `\]`, `\.`, "^", "{", ".", "_", " ", "a-b", "0-1"}
+		"{01}", "{1,01}", "{02,2}", "{00}", "{0,00}", "{01,}", "{2,2}", "{3,3}",
+		// lazy forms of the counted repeats
+		"+?", "{1}?", "{2}?", "{1,}?", "{0,1}?", "{2,3}?",
+		// counts near Go's limit of 1000 for (nested) repeats
+		"{200}", "{501}", "{251}", "{1000}"}
+	c11Items   = []string{"a", "b", "0", "9", "-", "a-z", "0-9", "a-a", "+--", "[:digit:]", "[:alpha:]", `\d`, `\w`, `\-`, `\]`, `\.`, "^", "{", ".", "_", " ", "a-b", "0-1",
+		"[:space:]", "[:word:]", "[:upper:]", "[:punct:]", `\:`, "[", ":", `\s`, `\S`, `\W`, ":alpha:", "}", ",",
+		"+-[:alpha:]", "*-+", "---", "8-:", `\=`, "=", "+--0"}
+	c11Words   = []string{"ab", "abc", "a", "b", "http", "x0", "0", "ba", "cab", "-", "a-"}
 )
 
 type patGen struct{ rng *rand.Rand }
@@ -59,8 +67,11 @@ func (g *patGen) atom(depth int) string {
 		return "^"
 	case k == 11:
 		return "$"
-	case k < 15:
+	case k < 14:
 		return g.class()
+	case k == 14:
+		// a one-character class next to text that becomes an operator once the brackets are gone
+		return g.pick([]string{"[{]", "[}]", "[,]", "[2]", "[+]", "[*]", "[?]", "[|]", "[(]", "[.]", "(?:{)", "(?:2)", "(?:,)", "{", "{2", "{2,"}) + g.pick([]string{"2}", "{2}", "1,2}", "", "+", "a", "}", "3}", "[,]3}", "[2]}"})
 	case depth >= 2:
 		return g.pick(c11Chars)
 	case k == 15:
@@ -90,6 +101,11 @@ func (g *patGen) concat(depth int) string {
 }
 
 func (g *patGen) alt(depth int) string {
+	if g.rng.Intn(14) == 0 {
+		// literals one of which is a prefix or a suffix of the other: `http|https`, `xfoo|foo`
+		w, c := g.pick(c11Words), g.pick(c11Chars)
+		return g.pick([]string{w + "|" + w + c, w + c + "|" + w, c + w + "|" + w, w + "|" + c + w})
+	}
 	s := g.concat(depth)
 	if g.rng.Intn(12) == 0 {
 		s = "" // an empty first alternative: `|a`
@@ -121,6 +137,10 @@ func reSubjects(pat string, maxLen int, rng *rand.Rand, extra int) []string {
 	}
 	add('\n')
 	add('Z')
+	if strings.Contains(pat, "space") || strings.Contains(pat, `\s`) || strings.Contains(pat, `\S`) {
+		add('\v') // [[:space:]] contains the vertical tab, \s does not
+		add('\t')
+	}
 	for _, r := range pat {
 		if r < utf8.RuneSelf && strings.ContainsRune("ab019-]{},_ x:iA.^+[", r) {
 			add(r)
@@ -152,6 +172,8 @@ func reSubjects(pat string, maxLen int, rng *rand.Rand, extra int) []string {
 
 var (
 	reZeroRepeat   = regexp.MustCompile(`\{0\}`)
+	reGroupHead    = regexp.MustCompile(`^(P<n\d>|i:|:)`) // what is left of `(?P<n1>`, `(?i:`, `(?:` before the first alternative
+	rePrefixAlt    = regexp.MustCompile(`([^|()\[\\*+?.^$]+)\|([^|()\[\\*+?.^$]+)`)
 	reQuantFlagGrp = regexp.MustCompile(`\(\?[a-zA-Z-]+\)([*+?]|\{\d)`)
 )
 
@@ -165,21 +187,48 @@ var (
 //	                       rule parser reads a POSIX class, so "identical" classes are folded wrongly
 //	bracket-pair-class     the pattern contains the class `[][]` (rewritten as the two-character sequence
 //	                       `\]\[`; asserted by the repository's own example file)
+//	adjacent-literal-braces the pattern contains `{{`: a literal brace directly before a repeat; once `{1}` is dropped
+//	                       the literal brace, the operand and the rest can form a repeat of their own (`{{{1}2{1}}` -> `{{2}`)
+//	posix-space-class      the pattern contains [:space:] or [:^space:]: rewritten as \s / \S, which (in Go) lack the
+//	                       vertical tab; asserted by the repository's own example file
+//	prefix-suffix-alternation `http|https` -> `https?` (the checker's documented example): the alternation prefers
+//	                       its first branch, the rewrite the longer match
 //	quantified-flag-group  a quantifier directly follows a flags-only group such as `(?s)*`: Go binds it
 //	                       to the atom *before* the group, so merging that atom changes the binding
 func c11Classify(a, b, how string) string {
 	switch {
-	case reZeroRepeat.MatchString(a):
-		return "zero-repeat"
-	case reQuantFlagGrp.MatchString(a):
-		return "quantified-flag-group"
 	case strings.Contains(a, "-[:"):
 		return "dash-before-posix-class"
 	case strings.Contains(a, "[][]"):
 		return "bracket-pair-class"
+	case strings.Contains(a, "space:]"):
+		return "posix-space-class"
+	case isPrefixAlt(a) && how == "match-differs":
+		return "prefix-suffix-alternation"
+	case strings.Contains(a, "{{"):
+		return "adjacent-literal-braces"
+	case reQuantFlagGrp.MatchString(a):
+		return "quantified-flag-group"
+	case reZeroRepeat.MatchString(a):
+		return "zero-repeat"
 	default:
 		return "other:" + how
 	}
+}
+
+// isPrefixAlt: the pattern contains two adjacent literal alternatives one of which is the other plus one
+// leading or trailing character (`http|https`, `xfoo|foo`).
+func isPrefixAlt(a string) bool {
+	for _, m := range rePrefixAlt.FindAllStringSubmatch(a, -1) {
+		x, y := reGroupHead.ReplaceAllString(m[1], ""), m[2]
+		if len(x) > len(y) {
+			x, y = y, x
+		}
+		if len(y) == len(x)+1 && (strings.HasPrefix(y, x) || strings.HasSuffix(y, x)) {
+			return true
+		}
+	}
+	return false
 }
 
 // cmdC11: regexp rewrites accept the same language.
